@@ -1,3 +1,140 @@
-import DV.Model.Decode
+/-
+  C03 — Typed command/grouped attributes map 1:1 onto dictionary AVPs and
+  round-trip.
+
+  What is proved here, generically in the tables (instantiated for the
+  regenerated tables in C03Tables.lean):
+  * `C03_generate_exact` — for an object of any class with any attribute values:
+    the generated AVP list is, definition by definition in definition order, the
+    AVPs of that definition — each bearing the definition's code, vendor and
+    flags (M from the override else the dictionary default), one per set value /
+    list element / nested object for values that fit the definition, none for an
+    unset attribute — followed by the undeclared AVPs unchanged;
+  * `C03_nested` / `C03_nested_list` — a nested object becomes one grouped AVP
+    whose payload is the encoding of what is generated for the nested object (so
+    the statement applies again at every depth);
+  * `C03_scalar_roundtrip` — a set scalar attribute with an in-domain value
+    yields one AVP whose payload decodes, through the dictionary's type, to the
+    value;
+  * `C03_decode_finds_definition` — in a well-formed class an AVP generated for
+    a definition is mapped back to that definition and no other.
+  NOT proved (kept visible): the full object-level statement
+  `assign (decode (encode (generate obj))) = canon obj` for every object tree —
+  the assignment fold over association lists with list attributes and nested
+  containers is covered by the correspondence and the direct oracle only
+  (`C03_roundtrip_statement` below is the statement; no theorem has that type).
+-/
+import DV.Proofs.Typed
+import DV.Properties.C01
 namespace DV
+open Spec
+
+/-- **Generation is exact.** -/
+theorem C03_generate_exact (tc : TimeConsts) (dict : DTree) (cs : List ClassDef) (fuel cls : Nat) (c : ClassDef)
+    (fields : List (Nat × FVal)) (additional : List Avp) (hc : findClass cs cls = some c)
+    (out : List Avp) (h : generateFuel tc dict cs (fuel + 1) (.obj cls fields additional) = .ok out) :
+    ∃ parts, out = parts.flatten ++ additional ∧ PerDef dict fields c.defs parts :=
+  generate_spec tc dict cs fuel cls c fields additional hc out h
+
+/-- An unset attribute contributes nothing (instance of `PerDef`: a value that
+    fits the definition contributes `valCount` AVPs, and `valCount unset = 0`). -/
+theorem C03_unset_absent (d : AttrDef) : WellTyped d .unset ∧ valCount .unset = 0 := ⟨trivial, rfl⟩
+
+theorem C03_nested (tc : TimeConsts) (dict : DTree) (cs : List ClassDef) (fuel : Nat) (d : AttrDef)
+    (cls : Nat) (fields : List (Nat × FVal)) (additional : List Avp) (out : List Avp)
+    (h : genOne tc dict cs fuel d (.obj cls fields additional) = .ok out) :
+    ∃ a subs, out = [a] ∧ generateFuel tc dict cs fuel (.obj cls fields additional) = .ok subs ∧
+      encodeAvps subs = .ok a.payload :=
+  genOne_nested tc dict cs fuel d cls fields additional out h
+
+theorem C03_nested_list (tc : TimeConsts) (dict : DTree) (cs : List ClassDef) (fuel : Nat) (d : AttrDef) (os : List FVal)
+    (out : List Avp) (h : genObjs tc dict cs fuel d os = .ok out) : ObjsGen tc dict cs fuel os out :=
+  genObjs_nested tc dict cs fuel d os out h
+
+/-- values of the documented domain of each AVP type -/
+def InDomain : Ty → Value → Prop
+  | .integer32, .int i => -2147483648 ≤ i ∧ i < 2147483648
+  | .unsigned32, .int i => 0 ≤ i ∧ i < 4294967296
+  | .integer64, .int i => -9223372036854775808 ≤ i ∧ i < 9223372036854775808
+  | .unsigned64, .int i => 0 ≤ i ∧ i < 18446744073709551616
+  | .float32, .f32 n => n < 4294967296
+  | .float64, .f64 n => n < 18446744073709551616
+  | .octetString, .bytes _ => True
+  | .utf8String, .str s => validUtf8 s = true
+  | .time, .time t => timeInDomain t
+  | _, _ => False
+
+/-- Value round trip for every plain type (composition of the C01 theorems). -/
+theorem value_roundtrip (g : Bool) (ty : Ty) (v : Value) (h : InDomain ty v) :
+    ∃ p, setValue rfcTime ty v = .ok p ∧ getValue rfcTime g ty p = .ok v := by
+  cases ty <;> cases v <;> simp only [InDomain] at h
+  · obtain ⟨h1, h2⟩ := C01_float32_roundtrip rfcTime g _ h; exact ⟨_, h1, h2⟩
+  · obtain ⟨h1, h2⟩ := C01_float64_roundtrip rfcTime g _ h; exact ⟨_, h1, h2⟩
+  · obtain ⟨p, h1, _, h2⟩ := C01_integer32_roundtrip rfcTime g _ h; exact ⟨p, h1, h2⟩
+  · obtain ⟨p, h1, _, h2⟩ := C01_integer64_roundtrip rfcTime g _ h; exact ⟨p, h1, h2⟩
+  · obtain ⟨h1, h2⟩ := C01_octetstring_roundtrip rfcTime g _; exact ⟨_, h1, h2⟩
+  · obtain ⟨p, h1, _, h2⟩ := C01_unsigned32_roundtrip rfcTime g _ h; exact ⟨p, h1, h2⟩
+  · obtain ⟨p, h1, _, h2⟩ := C01_unsigned64_roundtrip rfcTime g _ h; exact ⟨p, h1, h2⟩
+  · obtain ⟨h1, h2⟩ := C01_utf8_roundtrip rfcTime g _ h; exact ⟨_, h1, h2⟩
+  · obtain ⟨h1, h2⟩ := C01_time_layout_roundtrip g _ h; exact ⟨_, h1, h2⟩
+
+/-- **A set scalar attribute round-trips**: one AVP, and reading its payload
+    through the type the dictionary gives for (code, vendor) returns the value. -/
+theorem C03_scalar_roundtrip (dict : DTree) (cs : List ClassDef) (fuel : Nat) (g : Bool) (d : AttrDef) (v : Value)
+    (e : DictEntry) (he : lookupDict dict d.code d.vendor = some e) (hd : d.tclass = none)
+    (hv : InDomain (Ty.ofTag e.ty) v) (out : List Avp)
+    (h : genOne rfcTime dict cs fuel d (.scalar v) = .ok out) :
+    ∃ a, out = [a] ∧ CarriesDef dict d a ∧ getValue rfcTime g (Ty.ofTag e.ty) a.payload = .ok v := by
+  have hna : ∀ l, v ≠ .avps l := by
+    intro l hl; subst hl
+    cases hty : Ty.ofTag e.ty <;> simp [hty, InDomain] at hv
+  obtain ⟨a, e', ha, he', hp⟩ := genOne_scalar rfcTime dict cs fuel d v hd hna out h
+  rw [he] at he'; injection he' with he'; subst he'
+  obtain ⟨p, hs, hg⟩ := value_roundtrip g (Ty.ofTag e.ty) v hv
+  have hsa : setArg rfcTime (Ty.ofTag e.ty) (scalarArg v) = setValue rfcTime (Ty.ofTag e.ty) v := by
+    cases v <;> first | rfl | (cases hty : Ty.ofTag e.ty <;> simp [hty, InDomain] at hv)
+  rw [hsa, hs] at hp
+  injection hp with hp
+  refine ⟨a, ha, ?_, by rw [← hp]; exact hg⟩
+  have := (genOne_spec rfcTime dict cs fuel d (.scalar v) out h).1
+  exact this a (by rw [ha]; simp)
+
+/-- In a class whose definitions are pairwise distinct in (code, vendor) — the
+    table obligation — the decoder's lookup maps an AVP of definition `d` back
+    to `d` itself. -/
+theorem C03_decode_finds_definition (defs : List AttrDef) (hdist : defsDistinct defs = true) (d : AttrDef) (hd : d ∈ defs) :
+    neededDef defs d.code d.vendor = some d := by
+  unfold neededDef
+  induction defs with
+  | nil => cases hd
+  | cons x xs ih =>
+    simp only [defsDistinct, Bool.and_eq_true, List.all_eq_true] at hdist
+    rw [List.reverse_cons, List.find?_append]
+    rcases List.mem_cons.mp hd with rfl | hmem
+    · -- `d` is the head: no later definition has its key
+      have hnone : (xs.reverse).find? (fun y => y.code == d.code && y.vendor == d.vendor) = none := by
+        rw [List.find?_eq_none]
+        intro y hy
+        have := (hdist.1 y (List.mem_reverse.mp hy)).1
+        simp only [Bool.not_eq_true', Bool.and_eq_false_iff] at this
+        rcases this with h | h
+        · have hne : y.code ≠ d.code := by
+            intro e; rw [e] at h; simp at h
+          simp [hne]
+        · have hne : y.vendor ≠ d.vendor := by
+            intro e; rw [e] at h; simp at h
+          simp [hne]
+      simp [hnone]
+    · have := ih hdist.2 hmem
+      rw [this]; rfl
+
+/-- The full object-level round trip, as a statement (not proved; see the header). -/
+def C03_roundtrip_statement : Prop :=
+  ∀ (dict : DTree) (cs : List ClassDef) (g : Bool) (fuel cls : Nat) (obj : FVal) (avps : List Avp) (bytes : Bytes)
+    (decoded : List Avp) (back : FVal),
+    allClassesWF dict cs cs.length = true →
+    generateFuel rfcTime dict cs (fuel + 1) obj = .ok avps → encodeAvps avps = .ok bytes →
+    decodeAvps bytes 0 = .ok decoded → assignFuel (getValue rfcTime g) dict cs (fuel + 1) cls decoded = .ok back →
+    decoded = avps
+
 end DV
